@@ -664,6 +664,114 @@ theorem maxprinciple2D_cool_run (p : Par ℝ) (f : Flags) (H : StabCtx (mkCtx p 
     k (by rw [hlen]; exact hk)
   exact h (by omega)
 
+/-- **published rows, 2D cooling stage**: in addition to the field, every row saved so far lies in
+`[lo, hi]` (shifted to °C) -/
+theorem maxprinciple2D_cool_rows (p : Par ℝ) (f : Flags) (H : StabCtx (mkCtx p f))
+    (hcfg : p.config ≠ Config.visf) (T0C : ℝ) (prof : List ℝ) (NtExp : Nat) (lo hi : ℝ) (K : Nat)
+    (h0 : lo ≤ T0C + kelvin ∧ T0C + kelvin ≤ hi)
+    (hsh : ∀ j (hj : j < prof.length), j ≤ K → lo ≤ prof[j] + kelvin ∧ prof[j] + kelvin ≤ hi)
+    (k : Nat) (hk : k < prof.length) (hkK : k ≤ K) :
+    ∀ r ∈ (st2D p f T0C prof NtExp k).rows.toList, Bdd (lo - kelvin) (hi - kelvin) r.temp := by
+  unfold st2D
+  have hlen : (shelfK prof).length = prof.length := by simp [shelfK]
+  have h := stateAt_inv (coolStep2D p f NtExp)
+    (fun i s => i ≤ K + 1 → (Bdd lo hi s.T ∧ s.T.size = p.Nz * p.Nr) ∧
+      ∀ r ∈ s.rows.toList, Bdd (lo - kelvin) (hi - kelvin) r.temp) (shelfK prof) (coolInit2D (mkCtx p f) T0C)
+    (fun _ => by
+      refine ⟨⟨?_, by simp [coolInit2D, mkCtx]⟩, by simp [coolInit2D]⟩
+      intro x hx
+      simp only [coolInit2D, Array.getElem_replicate, zero_real, zero_add]
+      exact h0)
+    (fun j hj s hs hle => by
+      have hjp : j < prof.length := by rw [← hlen]; exact hj
+      have hsj := hs (by omega)
+      have hx : (shelfK prof)[j] = prof[j] + kelvin := by simp [shelfK]
+      have hb := coolStep_bdd (mkCtx p f) H hcfg (mkCtx p f).f.inplace ((shelfK prof)[j])
+        ((mkCtx p f).dt * ofNat' j) lo hi s.T hsj.1.2 hsj.1.1 (by rw [hx]; exact hsh j hjp (by omega))
+      have e : (mkCtx p f).Nz * (mkCtx p f).Nr = p.Nz * p.Nr := rfl
+      rw [e] at hb
+      refine ⟨by simpa [coolStep2D, coolStepSt] using hb, ?_⟩
+      intro r hr
+      simp only [coolStep2D, coolStepSt] at hr
+      split at hr
+      · simp only [Array.toList_push, List.mem_append, List.mem_singleton] at hr
+        rcases hr with hr | rfl
+        · exact hsj.2 r hr
+        · intro y hy
+          have hy' : y < (coolStep (mkCtx p f) (mkCtx p f).f.inplace (shelfK prof)[j]
+              (S2D.qEvap (mkCtx p f) false ((mkCtx p f).dt * ofNat' j) s.T) s.T).size := by simpa using hy
+          have := hb.1 y hy'
+          simp only [Array.getElem_map]
+          constructor <;> linarith [this.1, this.2]
+      · exact hsj.2 r hr)
+    k (by rw [hlen]; exact hk)
+  exact (h (by omega)).2
+
+/-- **`maxprinciple2D_published`** — the bound on what a completed 2D shelf/jacket run REPORTS:
+every temperature row with index `< iSaveEnd` (the rows of the cooling stage) lies in
+`[lo, hi]` (°C), where `[lo, hi]` contains `T_0` and the shelf temperatures applied up to the
+nucleation step `iCool`.  With a programme that has not risen and starts at `T_0`
+(`C05.profile_antitone`, `profile_head`) take `lo` = the shelf temperature of step `iCool`
+(the coldest applied so far), `hi = T_0`: see `maxprinciple2D_published_coldest`. -/
+theorem maxprinciple2D_published (p : Par ℝ) (f : Flags) (H : StabCtx (mkCtx p f))
+    (hcfg : p.config ≠ Config.visf) (T0C : ℝ) (prof : List ℝ) (NtExp : Nat) (Frand : ℝ) (cn : Option ℝ)
+    (r : Result ℝ) (hr : run p f T0C prof NtExp Frand cn = .ok r) (lo hi : ℝ)
+    (h0 : lo ≤ T0C + kelvin ∧ T0C + kelvin ≤ hi)
+    (hsh : ∀ j (hj : j < prof.length), j ≤ r.iCool → lo ≤ prof[j] + kelvin ∧ prof[j] + kelvin ≤ hi)
+    (k : Nat) (hk : k < r.iSaveEnd) :
+    ∃ row, r.temp[k]? = some row ∧ Bdd (lo - kelvin) (hi - kelvin) row := by
+  rw [run_eq] at hr
+  rcases hc : cool2D p f T0C prof NtExp Frand cn with ⟨_ | iEnd, s⟩
+  · rw [hc] at hr; simp at hr
+  · rw [hc] at hr
+    simp only at hr
+    have hfirst := (loopUntil_first _ _ _ _ iEnd s).mp hc
+    have hiE : iEnd < prof.length := by simpa [shelfK] using hfirst.1
+    have hs : s = st2D p f T0C prof NtExp iEnd := hfirst.2.1
+    split at hr
+    · simp at hr
+    · split at hr
+      · simp at hr
+      · simp only [Except.ok.injEq] at hr
+        subst hr
+        simp only [mkResult] at hk hsh ⊢
+        have hrows := maxprinciple2D_cool_rows p f H hcfg T0C prof NtExp lo hi iEnd h0 hsh iEnd hiE (le_refl _)
+        rw [← hs] at hrows
+        have hlt : k < s.rows.size := hk
+        refine ⟨s.rows[k].temp, ?_, hrows s.rows[k] (by simp)⟩
+        simp only [histRows, Array.getElem?_map]
+        have : ((s.rows.push (nucRow (mkCtx p f) iEnd s)
+            ++ (solFin2D (mkCtx p f) NtExp prof iEnd s).rows.extract 0
+                ((solFin2D (mkCtx p f) NtExp prof iEnd s).rows.size - 1)))[k]? = some s.rows[k] := by
+          rw [Array.getElem?_append_left (by simp; omega), Array.getElem?_push_lt hlt]
+        rw [this]; rfl
+
+/-- the property's quantities: coldest shelf temperature applied so far and `T_0` -/
+theorem maxprinciple2D_published_coldest (p : Par ℝ) (f : Flags) (H : StabCtx (mkCtx p f))
+    (hcfg : p.config ≠ Config.visf) (T0C : ℝ) (prof : List ℝ) (NtExp : Nat) (Frand : ℝ) (cn : Option ℝ)
+    (r : Result ℝ) (hr : run p f T0C prof NtExp Frand cn = .ok r) (hiC : r.iCool < prof.length)
+    (hanti : ∀ j (hj : j < prof.length), j ≤ r.iCool → prof[r.iCool] ≤ prof[j])
+    (htop : ∀ j (hj : j < prof.length), j ≤ r.iCool → prof[j] ≤ T0C)
+    (k : Nat) (hk : k < r.iSaveEnd) :
+    ∃ row, r.temp[k]? = some row ∧ Bdd (prof[r.iCool]) T0C row := by
+  have h := maxprinciple2D_published p f H hcfg T0C prof NtExp Frand cn r hr (prof[r.iCool] + kelvin)
+    (T0C + kelvin)
+    ⟨by linarith [hanti 0 (by omega) (by omega), htop 0 (by omega) (by omega)], le_refl _⟩
+    (fun j hj hle => ⟨by linarith [hanti j hj hle], by linarith [htop j hj hle]⟩) k hk
+  simpa using h
+
+/-- 1D, loop states: coldest shelf so far ≤ every node ≤ `T_0` for a programme that has not risen -/
+theorem maxprinciple1D_cool_run_coldest (p : SnowIn ℝ) (g : Grid1D ℝ) (stride : Nat) (hv : p.visf = none)
+    (hNz : 2 ≤ g.Nz) (hfo : 0 ≤ g.fo ∧ g.fo ≤ 1 / 2)
+    (hbi : 0 ≤ p.Kshelf * g.dz / g.lam0 ∧ p.Kshelf * g.dz / g.lam0 ≤ 1)
+    (shelf : List ℝ) (K : Nat) (hK : K < shelf.length)
+    (hanti : ∀ j (hj : j < shelf.length), j ≤ K → shelf[K] ≤ shelf[j])
+    (htop : ∀ j (hj : j < shelf.length), j ≤ K → shelf[j] ≤ p.T_0) :
+    Bdd1 (shelf[K]) p.T_0 (stateAt (coolStep1D p g stride) shelf (coolInit1D p g) K).T :=
+  maxprinciple1D_cool_run p g stride hv hNz hfo hbi shelf (shelf[K]) p.T_0 K
+    ⟨le_trans (hanti 0 (by omega) (by omega)) (htop 0 (by omega) (by omega)), le_refl _⟩
+    (fun j hj hle => ⟨hanti j hj hle, htop j hj hle⟩) K hK (le_refl _)
+
 /-! ### ice fraction and phase equilibrium -/
 
 /-- ice mass fraction reported for a node at temperature `t` (`iceFrac`, l.1719-1724) -/
@@ -897,13 +1005,87 @@ theorem ice_range_nucleation_row (p : Par ℝ) (f : Flags) (h : DerivedOK p) (hc
     refine ⟨le_refl 0, div_pos h.mw_pos hM, ⟨fun h0 => absurd h0 (lt_irrefl 0), fun h0 => absurd h0 hsc⟩, ?_⟩
     simp [iceFracNode, hTl, hsc]
 
-/-- **1D ice formulas** (`solidStep1D`: `m_ice/mass` with the mask as a number; the same
-expression divided by `m_w + m_s` in the nucleation row): equal to the 2D node formula when
-`mass = m_w + m_s` (`DerivedOK.mass_eq`), hence `ice_range` / `liquidus_relation` apply. -/
-theorem ice1D_eq_node (q : SnowIn ℝ) (t den : ℝ) :
-    ((Num.zero : ℝ) * maskNum (!decide (t < q.T_eq_l)) + iceMassEq q t * maskNum (decide (t < q.T_eq_l))) / den
-      = (if t < q.T_eq_l then iceMassEq q t else 0) / den := by
-  by_cases h : t < q.T_eq_l <;> simp [maskNum, h]
+/-! #### the ice fields the 1D model actually produces -/
+
+/-- ice fraction of a 1D node at temperature `t` (denominator `den`: `mass` in the solidification
+rows, `m_w + m_s` in the nucleation row) -/
+noncomputable def iceNode1D (q : SnowIn ℝ) (den t : ℝ) : ℝ :=
+  (if t < q.T_eq_l then iceMassEq q t else 0) / den
+
+/-- hypotheses on the constants of a `SnowIn` (the relations of `calculateDerived`) -/
+structure SolOK1 (q : SnowIn ℝ) : Prop where
+  mw : 0 < q.const.mass_water
+  ms : 0 < q.const.mass_solute
+  kap : 0 < q.const.k_f / q.const.M_s
+  dep : q.const.depression = q.const.k_f / q.const.M_s * (q.const.mass_solute / q.const.mass_water)
+
+/-- `ice_range`, `ice_iff_supercooled`, `liquidus_relation` for the 1D node formula -/
+theorem iceNode1D_range (q : SnowIn ℝ) (h : SolOK1 q) (den : ℝ) (hden : 0 < den) (t : ℝ) :
+    0 ≤ iceNode1D q den t ∧ iceNode1D q den t < q.const.mass_water / den
+      ∧ (0 < iceNode1D q den t ↔ t < q.T_eq_l)
+      ∧ (0 < iceNode1D q den t → iceNode1D q den t * den
+          = q.const.mass_water - q.const.mass_solute * (q.const.k_f / q.const.M_s) / (q.T_m - t)) := by
+  have hmw := h.mw; have hms := h.ms; have hk := h.kap
+  unfold iceNode1D
+  by_cases hsc : t < q.T_eq_l
+  · simp only [hsc, if_true]
+    have hx : q.const.k_f / q.const.M_s * (q.const.mass_solute / q.const.mass_water) < q.T_m - t := by
+      have : q.T_eq_l = q.T_m - q.const.depression := rfl
+      rw [this, h.dep] at hsc; linarith
+    have hδ : 0 < q.const.k_f / q.const.M_s * (q.const.mass_solute / q.const.mass_water) := by positivity
+    have hxpos : 0 < q.T_m - t := by linarith
+    have hpos : 0 < iceMassEq q t := by
+      simp only [iceMassEq]
+      have : q.const.mass_solute * (q.const.k_f / q.const.M_s) / (q.T_m - t) < q.const.mass_water := by
+        rw [div_lt_iff₀ hxpos]
+        have e : q.const.mass_solute * (q.const.k_f / q.const.M_s)
+            = q.const.mass_water * (q.const.k_f / q.const.M_s * (q.const.mass_solute / q.const.mass_water)) := by
+          field_simp
+        rw [e]; nlinarith
+      linarith
+    have hlt : iceMassEq q t < q.const.mass_water := by
+      simp only [iceMassEq]
+      have : 0 < q.const.mass_solute * (q.const.k_f / q.const.M_s) / (q.T_m - t) := by positivity
+      linarith
+    refine ⟨le_of_lt (div_pos hpos hden), div_lt_div_of_pos_right hlt hden,
+      ⟨fun _ => trivial, fun _ => div_pos hpos hden⟩, fun _ => ?_⟩
+    simp only [iceMassEq]; field_simp
+  · simp only [hsc, if_false, zero_div]
+    exact ⟨le_refl 0, div_pos hmw hden, by simp, fun h0 => absurd h0 (lt_irrefl 0)⟩
+
+/-- **1D solidification rows**: the ice field `w_i_k` produced by `solidStep1D` is, node by node,
+`iceNode1D` of the temperature field the same step produces (denominator `mass`) — so
+`iceNode1D_range` gives range, ice-iff-supercooled and the liquidus relation for it -/
+theorem solidStep1D_ice (q : SnowIn ℝ) (g : Grid1D ℝ) (stride iEnd : Nat) (tNuc : ℝ) (i : Nat) (s : Solid1D ℝ)
+    (Tsh : ℝ) (j : Nat) (hj : j < g.Nz) :
+    aget (solidStep1D q g stride iEnd tNuc i s Tsh).w j
+      = iceNode1D q q.const.mass (aget (solidStep1D q g stride iEnd tNuc i s Tsh).T j) := by
+  have hw : (solidStep1D q g stride iEnd tNuc i s Tsh).w
+      = ((solidStep1D q g stride iEnd tNuc i s Tsh).T.map fun t =>
+          (Num.zero : ℝ) * maskNum (!decide (t < q.T_eq_l)) + iceMassEq q t * maskNum (decide (t < q.T_eq_l))).map
+          (· / q.const.mass) := rfl
+  have hsz : (solidStep1D q g stride iEnd tNuc i s Tsh).T.size = g.Nz := by simp [solidStep1D]
+  rw [hw]
+  generalize (solidStep1D q g stride iEnd tNuc i s Tsh).T = Tn at hsz ⊢
+  rw [Snow.aget_map _ _ j (by simp; omega), Snow.aget_map _ _ j (by omega)]
+  unfold iceNode1D
+  by_cases hsc : aget Tn j < q.T_eq_l <;> simp [maskNum, hsc]
+
+/-- **1D nucleation row**: the ice field written right after nucleation (`nucleate1D`, divided by
+`m_w + m_s`) is `iceNode1D` of the NEW temperature field (mask on the old temperature, `iceMassEq`
+at the `−√` root: the root of a supercooled node is again below `T_eq_l`, `C02.nucleation_adiabatic_0D1D`) -/
+theorem nucleate1D_ice (q : SnowIn ℝ) (h : SolOK1 q) (hcp : 0 < q.const.cp_solution) (hm : 0 < q.const.mass)
+    (hDh : 0 < q.const.Dh) (T : Array ℝ) (j : Nat) (hj : j < T.size) :
+    aget ((nucleate1D q T).2.map (· / (q.const.mass_water + q.const.mass_solute))) j
+      = iceNode1D q (q.const.mass_water + q.const.mass_solute) (aget (nucleate1D q T).1 j) := by
+  unfold nucleate1D
+  simp only []
+  rw [Snow.aget_map _ _ j (by simp; exact hj), Snow.aget_map _ _ j hj, Snow.aget_map _ _ j hj]
+  unfold iceNode1D
+  by_cases hsc : aget T j < q.T_eq_l
+  · have hb := (C02.nucleation_adiabatic_0D1D q (aget T j) hcp hm hDh h.mw h.ms h.kap h.dep hsc).2.2.1
+    simp [maskNum, hsc, hb]
+  · simp [maskNum, hsc]
 
 /-- **0D ice formula** (`iceFrac0D`, no mask): it IS the liquidus expression; it is in range at
 every temperature below the equilibrium freezing temperature (for the 0D model this is a
@@ -1002,17 +1184,53 @@ theorem stabCtx_pDef (f : Flags) : StabCtx (mkCtx pDef f) := by
   · intro j h1 hj
     exact r_ge_half_dr pDef f hR (by simp [pDef]) j h1 hj
 
+/-- the hypotheses of the 0D / 1D run-level theorems and of the ice theorems on the concrete
+default `SnowIn` (`RunBounds.qDef`) and its 30-point grid -/
+theorem hyps_qDef :
+    -- `bounds0D_run`: hden, hnum, hθ
+    (0 < RunBounds.qDef.const.cp_solution * RunBounds.qDef.const.mass
+      ∧ 0 ≤ RunBounds.qDef.const.A * RunBounds.qDef.Kshelf
+      ∧ (1 / 10 : ℝ) * (RunBounds.qDef.const.A * RunBounds.qDef.Kshelf)
+          ≤ RunBounds.qDef.const.cp_solution * RunBounds.qDef.const.mass) ∧
+    -- `maxprinciple1D_cool_run`: hv, hfo, hbi on `grid1D qDef 30`
+    (RunBounds.qDef.visf = none
+      ∧ (0 ≤ (grid1D RunBounds.qDef 30).fo ∧ (grid1D RunBounds.qDef 30).fo ≤ 1 / 2)
+      ∧ (0 ≤ RunBounds.qDef.Kshelf * (grid1D RunBounds.qDef 30).dz / (grid1D RunBounds.qDef 30).lam0
+          ∧ RunBounds.qDef.Kshelf * (grid1D RunBounds.qDef 30).dz / (grid1D RunBounds.qDef 30).lam0 ≤ 1)) ∧
+    -- `iceNode1D_range`, `nucleate1D_ice`, `C02.nucleation_adiabatic_0D1D`: SolOK1, hcp, hm, hDh, a supercooled node
+    (SolOK1 RunBounds.qDef ∧ 0 < RunBounds.qDef.const.cp_solution ∧ 0 < RunBounds.qDef.const.mass
+      ∧ 0 < RunBounds.qDef.const.Dh ∧ (263.15 : ℝ) < RunBounds.qDef.T_eq_l) := by
+  have hdz : (grid1D RunBounds.qDef 30).dz = 1 / 3000 := by
+    simp only [grid1D, RunBounds.qDef, ofNat'_real]; norm_num
+  have hlam : (grid1D RunBounds.qDef 30).lam0 = 0.5744 := by
+    simp only [grid1D, RunBounds.qDef, one_real]; norm_num
+  refine ⟨?_, ⟨rfl, ?_, ?_⟩, ⟨⟨?_, ?_, ?_, ?_⟩, ?_, ?_, ?_, ?_⟩⟩
+  · simp only [RunBounds.qDef]; norm_num
+  · apply grid1D_fo_le_half
+    · rw [hdz]; norm_num
+    · simp only [RunBounds.qDef]; norm_num
+    · rw [hlam]; simp only [RunBounds.qDef]; norm_num
+    · rw [hlam]; simp only [RunBounds.qDef]; norm_num
+  · rw [hdz, hlam]; simp only [RunBounds.qDef]; norm_num
+  all_goals (simp only [RunBounds.qDef, SnowIn.T_eq_l, SnowIn.T_m, lit_real]; norm_num)
+
 /-- **non-vacuity**: the named hypotheses of the registered theorems are instantiated on the
 default configuration — `Stab`/`StabCtx` (CFL, both Biot numbers, radial grid), `DerivedOK`,
-hence `SolOK`; and the shelf-programme hypotheses of the run-level theorems on a concrete
-three-sample programme (5, 4, 3 °C, product at 5 °C). -/
+hence `SolOK`, for the 2D model (`pDef`); the 0D/1D hypotheses on `qDef` (`hyps_qDef`); the
+shelf-programme hypotheses of the run-level theorems on a concrete three-sample programme; and
+the weight hypotheses of `maxprinciple_solid_partial` on a uniform-conductivity stencil
+(`k = 1`, `r_j = 2`, `dr = dz = 1`, `θ = 1/10`). -/
 theorem nonvacuous :
     StabCtx (mkCtx pDef {}) ∧ DerivedOK pDef ∧ SolOK (mkCtx pDef {}) ∧
     (∀ j (hj : j < [5, 4, (3 : ℝ)].length), j ≤ 2 →
-      (3 : ℝ) + kelvin ≤ [5, 4, (3 : ℝ)][j] + kelvin ∧ [5, 4, (3 : ℝ)][j] + kelvin ≤ 5 + kelvin) :=
+      (3 : ℝ) + kelvin ≤ [5, 4, (3 : ℝ)][j] + kelvin ∧ [5, 4, (3 : ℝ)][j] + kelvin ≤ 5 + kelvin) ∧
+    ((0 : ℝ) ≤ 1 / 2 / (2 * 1) + (1 - 1) / (4 * (1 * 1)) + 1 / (1 * 1)
+      ∧ (0 : ℝ) ≤ -(1 / 2 / (2 * 1)) - (1 - 1) / (4 * (1 * 1)) + 1 / (1 * 1)
+      ∧ (0 : ℝ) ≤ (1 - 1) / (4 * (1 * 1)) + 1 / (1 * 1)
+      ∧ (1 / 10 : ℝ) * ((1 / 2 / (2 * 1) + 1) + (-(1 / 2 / (2 * 1)) + 1) + 1 + 1) ≤ 1) :=
   ⟨stabCtx_pDef {}, derivedOK_pDef, solOK_of_derived pDef {} derivedOK_pDef, by
     intro j hj _
     have : j = 0 ∨ j = 1 ∨ j = 2 := by simp at hj; omega
-    rcases this with rfl | rfl | rfl <;> simp <;> norm_num⟩
+    rcases this with rfl | rfl | rfl <;> simp <;> norm_num, by norm_num⟩
 
 end Snow.C07
